@@ -67,7 +67,8 @@ def main(tier, replay=None):
         scen += objs
     # tagged maps of haplotype-resolved assemblies (several output assemblies, Target mode, sequence absent from the map)
     for tn, td in R.TEXELS[tier][:2]:
-        objs, r = R.export(run, f"pv-tagged-{tn}-{td}", tn, td, "tagged", 3, 0, cap=sz["remap_cap"], rng=rng, style="hap")
+        objs, r = R.export(run, f"pv-tagged-{tn}-{td}", tn, td, "tagged", 3, 0, cap=sz["remap_cap"], rng=rng, style="hap",
+                           simulate="num=150" if tier == "quick" else None, workers=1 if tier == "quick" else 8)
         states += r["distinct"]
         gen += r["generated"]
         scen += objs
@@ -76,6 +77,21 @@ def main(tier, replay=None):
         s["cls"] = "valid"
     for lst in C.pmap("harness.c06", "remap_agp", scen, chunk=200):
         traces += lst
+    # (b2) the AGP files the pretext-to-asm command line writes for tagged maps of two- and three-haplotype assemblies (Primary mode merges
+    #      haplotypes into one file)
+    cs = []
+    for style, (tn, td) in (("hap", R.TEXELS[tier][0]), ("hap3", R.TEXELS[tier][0]), ("hap3", R.TEXELS[tier][1])):
+        objs, r = R.export(run, f"pv-cli-{style}-{tn}-{td}", tn, td, "tagged", 3, 0, cap=sz["remap_cap"] // 3, rng=rng, style=style,
+                           simulate="num=150" if tier == "quick" else None, workers=1 if tier == "quick" else 8)
+        states += r["distinct"]
+        gen += r["generated"]
+        for o in objs:
+            o.update(tid=0, cls="tagged-" + style, root=str(run.sub("clir")), keep_agp=1)
+        cs += objs
+    for ct in C.pmap("harness.remap_engine", "run_scenario_cli", cs, chunk=100):
+        for af in ct.get("agp_files", []):
+            word = af["file"].split(".")[-3] if af["file"].endswith(".curated.agp") else af["file"].split(".")[-2]
+            traces.append(A.agp_trace(0, "pretext-to-asm-cli/" + word, af["lines"], []))
     # (c) the .agp cache written beside indexed FASTA files
     files = F.export_files(run, tier, sz["fasta"], rng)
     fsc = [{"tid": 0, "recs": f["recs"], "fnl": f["fnl"], "Bs": [7], "Ls": [60], "opts": {"disk": True, "disk_buffer": 2}, "seed": 0} for f in files]
@@ -99,7 +115,8 @@ def main(tier, replay=None):
         "states": states, "transitions": gen, "traces_validated_against_impl": jr["judged"], "exhaustive": False,
         "evaluations": len(traces), "distinct_nontrivial": sum(1 for t in traces if len(t["lines"]) > 1),
         "rule": "every AGP text written while (a) formatting the C05 universe, (b) remapping valid PretextView scenarios (cut, reversed, fused scaffolds; all "
-                "output assemblies) and tagged maps of two-haplotype assemblies, (c) indexing FASTA files of the bounded universe with a 2-residue buffer (.agp cache read back from disk), (d) the pretext-to-asm CLI writing "
+                "output assemblies) and tagged maps of two-haplotype assemblies, (b2) the AGP files written by the pretext-to-asm command line for tagged maps of two- and "
+                "three-haplotype assemblies (Primary mode included), (c) indexing FASTA files of the bounded universe with a 2-residue buffer (.agp cache read back from disk), (d) the pretext-to-asm CLI writing "
                 "FASTA + companion AGP with stream buffers 7 / 64 / 250000 (object length = length of the record written); TLC evaluates AgpTpf!AgpValid and the "
                 "object-length clause on each; non-trivial = more than one line",
         "agp_texts_by_source": src, "agp_lines": sum(len(t["lines"]) for t in traces),
